@@ -1,8 +1,8 @@
 package main
 
 import (
-	"fmt"
 	"encoding/json"
+	"fmt"
 	"os"
 	"sort"
 	"strings"
@@ -28,7 +28,7 @@ type knownEntry struct {
 	Stack    string      `json:"stack_contains"`
 	When     []knownCond `json:"when"`
 	Classes  []string    `json:"classes"` // exact values of the harness's "class" note (any of)
-	Status   string      `json:"status"` // known | fixed: <commit>
+	Status   string      `json:"status"`  // known | fixed: <commit>
 	Witness  string      `json:"witness"`
 	Note     string      `json:"note"`
 }
